@@ -181,6 +181,12 @@ def extension_rich(p, lid='X', ver='1', base=('L', '1'), tag='x', btag=''):
     xf = {'external': True, 'id': b + 'fid2'}   # the base entry's *second* form
     if p.has(t + 'xform_tag'):
         xf['tags'] = [{'text': p(t + 'xftag1'), 'category': p(t + 'xftagcat1')}]
+    # pronunciations on the external lemma / form (only when asked for explicitly)
+    if p.sym.get('has_' + t + 'xlemma_pron', False):
+        xl['pronunciations'] = [{'text': p(t + 'xpron1'), 'phonemic': False}]
+    if p.sym.get('has_' + t + 'xform_pron', False):
+        xf['pronunciations'] = [{'text': p(t + 'xfpron1'), 'variety': 'v',
+                                 'phonemic': p(t + 'xfpron_phonemic', False)}]
     xs1 = {'external': True, 'id': b + 's1'}
     if p.has(t + 'xs_ex'):
         xs1['examples'] = [{'text': p(t + 'xsx1'), 'meta': None}]
